@@ -428,3 +428,100 @@ pub fn term_not_tty(_args: &[String]) -> String {
     }
     format!("{{\"found\": false, \"tried\": {}}}", tried)
 }
+
+/// C02 / C04: the life of bars in a MultiProgress against a simple model: the screen shows, in the order the bars were
+/// added, the last rendering of every bar that is alive or was finished visibly (also after its last handle is gone); bars
+/// that were dropped unfinished (default finish: clear) or cleared disappear; new bars go to the end whatever slots were
+/// recycled.  Every history of up to 6 operations out of 9 on up to 5 bars.
+pub fn multi_life(_args: &[String]) -> String {
+    use indicatif::{InMemoryTerm, MultiProgress, ProgressBar, ProgressDrawTarget};
+    std::panic::set_hook(Box::new(|_| {}));
+    let mut tried = 0u64;
+    // ops: 0 add a bar, 1 finish(first alive unfinished), 2 finish(last alive unfinished), 3 drop(first alive), 4 drop(last alive),
+    //      5 inc(first alive unfinished), 6 inc(last alive unfinished), 7 finish_and_clear(first alive unfinished), 8 tick every alive bar
+    struct B { name: String, pb: Option<ProgressBar>, pos: u64, finished: bool, visible: bool }
+    let run = |ops: &[usize], tried: &mut u64| -> Option<String> {
+        let term = InMemoryTerm::new(12, 40);
+        let mp = MultiProgress::with_draw_target(ProgressDrawTarget::term_like(Box::new(term.clone())));
+        let mut bars: Vec<B> = vec![];
+        let mut hist: Vec<String> = vec![];
+        let mut add = |bars: &mut Vec<B>, hist: &mut Vec<String>| {
+            let name = format!("b{}", bars.len());
+            let pb = mp.add(ProgressBar::new(10));
+            pb.set_style(ProgressStyle::with_template("{msg} {pos}/{len}").unwrap());
+            pb.set_message(name.clone());
+            hist.push(format!("add {}", name));
+            bars.push(B { name, pb: Some(pb), pos: 0, finished: false, visible: true });
+        };
+        add(&mut bars, &mut hist);
+        add(&mut bars, &mut hist);
+        for op in ops {
+            let alive: Vec<usize> = (0..bars.len()).filter(|i| bars[*i].pb.is_some()).collect();
+            let unfinished: Vec<usize> = alive.iter().copied().filter(|i| !bars[*i].finished).collect();
+            match *op {
+                0 => { if bars.len() >= 5 { return None; } add(&mut bars, &mut hist); }
+                1 | 2 => { let i = *(if *op == 1 { unfinished.first() } else { unfinished.last() })?; bars[i].pb.as_ref().unwrap().finish(); bars[i].finished = true; bars[i].pos = 10; hist.push(format!("{}.finish()", bars[i].name)); }
+                3 | 4 => { let i = *(if *op == 3 { alive.first() } else { alive.last() })?; bars[i].pb = None; if !bars[i].finished { bars[i].visible = false; } hist.push(format!("drop {}", bars[i].name)); }
+                5 | 6 => { let i = *(if *op == 5 { unfinished.first() } else { unfinished.last() })?; bars[i].pb.as_ref().unwrap().inc(1); bars[i].pos += 1; hist.push(format!("{}.inc(1)", bars[i].name)); }
+                7 => { let i = *unfinished.first()?; bars[i].pb.as_ref().unwrap().finish_and_clear(); bars[i].finished = true; bars[i].visible = false; bars[i].pos = 10; hist.push(format!("{}.finish_and_clear()", bars[i].name)); }
+                _ => { hist.push("tick every alive bar".into()); }
+            }
+            for b in bars.iter() { if let Some(pb) = &b.pb { if !b.finished { pb.tick(); } } }
+            *tried += 1;
+            // a bar that was never drawn while it was the only thing alive may still be invisible: every alive bar is ticked above
+            let want: Vec<String> = bars.iter().filter(|b| b.visible).map(|b| format!("{} {}/10", b.name, b.pos)).collect();
+            let want = want.join("\n");
+            let got = term.contents();
+            if got != want {
+                let h: Vec<&str> = hist.iter().map(String::as_str).collect();
+                return Some(format!("{{\"found\": true, \"clause\": \"C02 every visible member once, in the order of insertion, whatever slots were recycled; C04 visibly finished bars keep their final rendering after their handles are gone\", \"input\": {{\"history\": {}, \"expected_screen\": {}, \"screen\": {}}}, \"rerun\": \"replay multi_life\"}}",
+                    crate::jlist(&h), crate::js(&want), crate::js(&got)));
+            }
+        }
+        None
+    };
+    for a in 0..9 { for b in 0..9 { for c in 0..9 { for d in 0..9 { for e in [0usize, 3, 5, 8] { for f in [0usize, 4, 6, 8] {
+        if let Some(r) = run(&[a, b, c, d, e, f], &mut tried) { return r; }
+    }}}}}}
+    format!("{{\"found\": false, \"tried\": {}}}", tried)
+}
+
+/// C04 / C02 / C03 in cursor-moving mode (set_move_cursor(true)), restricted to frames that go away: a clearing finish, a
+/// dropped unfinished bar, clear() and suspend() leave nothing of the bars behind; the closure's output is not mixed with them.
+pub fn multi_movecursor(_args: &[String]) -> String {
+    use indicatif::{InMemoryTerm, MultiProgress, ProgressBar, ProgressDrawTarget, TermLike};
+    std::panic::set_hook(Box::new(|_| {}));
+    let mut tried = 0u64;
+    // one bar only: the documentation of set_move_cursor rules out changing the number of bars in this mode (a frame that
+    // shrinks from two bars to one leaves the second row behind: documented, not reported)
+    for nbars in 1usize..=1 {
+        for how in 0..5 {
+            let term = InMemoryTerm::new(8, 40);
+            let mp = MultiProgress::with_draw_target(ProgressDrawTarget::term_like(Box::new(term.clone())));
+            mp.set_move_cursor(true);
+            let mut bars: Vec<ProgressBar> = (0..nbars).map(|i| {
+                let pb = mp.add(ProgressBar::new(10));
+                pb.set_style(ProgressStyle::with_template("{msg} working {pos}").unwrap());
+                pb.set_message(format!("bar{}", i));
+                pb
+            }).collect();
+            for b in &bars { b.tick(); }
+            let mut hist = vec![format!("set_move_cursor(true); {} bar(s) ticked", nbars)];
+            let want: String = match how {
+                0 => { for b in &bars { b.finish_and_clear(); } hist.push("finish_and_clear on every bar".into()); String::new() }
+                1 => { bars.clear(); hist.push("drop every bar (default finish: clear)".into()); String::new() }
+                2 => { let _ = mp.clear(); hist.push("mp.clear()".into()); String::new() }
+                3 => { let t = term.clone(); mp.suspend(|| { let _ = t.write_line("hi"); }); let _ = mp.clear(); hist.push("mp.suspend(|| write_line(hi)); mp.clear()".into()); "hi".to_string() }
+                _ => { for b in &bars { b.finish_and_clear(); } let _ = mp.println("done"); hist.push("finish_and_clear on every bar; mp.println(done)".into()); "done".to_string() }
+            };
+            tried += 1;
+            let got = term.contents();
+            if got != want {
+                let h: Vec<&str> = hist.iter().map(String::as_str).collect();
+                return format!("{{\"found\": true, \"clause\": \"C04/C02 in cursor-moving mode a frame that goes away (clearing finish, dropped bar, clear, suspend) leaves nothing of the bars on the screen\", \"input\": {{\"history\": {}, \"expected_screen\": {}, \"screen\": {}}}, \"rerun\": \"replay multi_movecursor\"}}",
+                    crate::jlist(&h), crate::js(&want), crate::js(&got));
+            }
+        }
+    }
+    format!("{{\"found\": false, \"tried\": {}}}", tried)
+}
